@@ -1106,6 +1106,10 @@ func runC14(c *Ctx) {
 	knut, _ := filepath.Abs(c.KnutBin)
 	// ---- path.Clean / path.Join against the model
 	c14Paths(c)
+	// ---- reports that cannot be written
+	if !c.Replay || c.OnlyStr == "fullstdout" {
+		runC14FullStdout(c)
+	}
 
 	// cases are generated, run and evaluated chunk by chunk, so that the harness itself stays small (the resident
 	// set the kernel reports for a child starts from that of the process that spawned it)
